@@ -407,10 +407,15 @@ class REPEX_state:
 
     def set_rgen(self):
         """Set numpy random generator state from restart."""
+        # job streams handed out so far: one per pick. Jobs re-issued after a
+        # restart take new streams, the count then runs ahead of the default
+        # and is stored in the restart file.
+        current = self.config["current"]
         seed_sequence = np.random.SeedSequence(
             entropy=self.config["simulation"]["seed"],
-            n_children_spawned=self.cstep
-            + len(self.config["current"].get("locked", [])),
+            n_children_spawned=current.get(
+                "rng_children", self.cstep + len(current.get("locked", []))
+            ),
         )
         self.rgen = default_rng(seed_sequence)
         self.rgen.bit_generator.state = self.config["current"]["rng_state"]
@@ -745,6 +750,12 @@ class REPEX_state:
             )
         self.config["current"]["locked"] = locked_ep
         self.config["current"]["rng_state"] = self.rgen.bit_generator.state
+        # only stored when it differs from the default used by set_rgen
+        spawned = self.rgen.bit_generator._seed_seq.n_children_spawned
+        if spawned != self.cstep + len(locked_ep):
+            self.config["current"]["rng_children"] = spawned
+        else:
+            self.config["current"].pop("rng_children", None)
 
         # save accumulative fracs
         self.config["current"]["frac"] = {}
